@@ -59,6 +59,34 @@ def gen_program(rng, idx):
                 ('asg', 'acc', None, ('bin', '+', V('acc'), I(100))),
                 ('ret', ('bin', '+', V('r1'), call('mid', I(2))))])))
             actions += [lambda r, outer=outer: [('print', call(outer, I(r.randint(0, 3))))]]
+    # a function that READS a captured variable, then shadows it with a plain assignment, then creates a nested
+    # closure over the (now local) name: the nested closure must see the local, not the outer variable
+    if rng.random() < 0.6:
+        y = 'y%d' % idx
+        prog.append(('asg', y, 'int', I(rng.randint(1, 5))))
+        sh = 'shadow%d' % idx
+        prog.append(('asg', sh, None, fn([], 'int', [
+            ('asg', 'before', None, V(y)),
+            ('asg', y, None, ('bin', '+', V('before'), I(100))),
+            ('asg', 'inner', None, fn([], 'int', [('mod', y, ('bin', '+', V(y), I(1))), ('ret', V(y))])),
+            ('ret', ('bin', '+', call('inner'), call('inner')))])))
+        actions += [lambda r, sh=sh, y=y: [('print', call(sh)), ('print', V(y))],
+                    lambda r, y=y: [('asg', y, None, ('bin', '+', V(y), I(1)))]]
+    # an outer variable used ONLY as the fallback of `or` inside a function, called with nil and with a value
+    if rng.random() < 0.6:
+        dflt = 'dflt%d' % idx
+        prog.append(('asg', dflt, 'int', I(rng.randint(40, 49))))
+        orf = 'orf%d' % idx
+        prog.append(('asg', orf, None, fn([('o', ('opt', 'int'))], 'int', [('ret', ('nilor', V('o'), V(dflt)))])))
+        mk2 = 'mkor%d' % idx
+        prog.append(('asg', mk2, None, fn([('fb', 'int')], ('fn', (('opt', 'int'),), 'int'), [
+            ('asg', 'g', None, fn([('o', ('opt', 'int'))], 'int', [('ret', ('nilor', V('o'), V('fb')))])),
+            ('ret', V('g'))])))
+        h = 'h%d' % idx
+        prog.append(('asg', h, None, call(mk2, I(rng.randint(70, 79)))))
+        actions += [lambda r, orf=orf: [('print', call(orf, r.choice([('nil',), I(r.randint(1, 9))])))],
+                    lambda r, h=h: [('print', call(h, r.choice([('nil',), I(r.randint(1, 9))])))],
+                    lambda r, dflt=dflt: [('asg', dflt, None, ('bin', '+', V(dflt), I(1)))]]
     for _ in range(rng.randint(4, 12)):
         prog += rng.choice(actions)(rng)
     # passing a closure as an argument
